@@ -12,6 +12,18 @@ CHECKS = {
  "C02": dict(engine="Scheduler", technique="TLC exhaustive exploration of spec/Scheduler.tla: terminal states per case compared with the declarative rule, deadlock + fairness-based termination; real Controller runs trace-validated and their terminal states required to be reachable in the specification",
              text="Confluence and termination are decided by exhaustive enumeration of interleavings per (shape, fault sequence) on the model; the binding runs the real Controller under seeded schedules, validates every run against the specification, detects runs that never reach quiescence and checks each real terminal state against the set TLC computed and against the documented rule.",
              note=SCHED_NOTE, ref="4/C02"),
+ "C05": dict(engine="DoWhile", technique="TLC model checking of spec/DoWhile.tla (document family x unrolling state machine, k <= 12 / 21); every reachable state replayed on the real WorkflowGraph after each instantiate_dowhile_next_iteration call",
+             text="TLC checks all C05 clauses (instances 0..k, loop-carried inputs from i-1 without stage drift, outside references to the numerically highest iteration, aggregate order, condition of iteration k) for 173 document shapes up to 12 (thorough 21) iterations; the binding unrolls each shape on a real instance and compares wiring, placeholders, resolve() of :ref/:output/:loopref/:loopoutput, producers and loop state with the spec after every call.",
+             note="Trusted: TLC. Looped instances are not executed (the harness writes their stdout); edges into outside consumers are only bounded; quick unrolls part of the shapes 3 times only; at most 2 looped components, no nested loops.",
+             ref="4/C05"),
+ "C07": dict(engine="InstanceStore", technique="TLC model checking of spec/InstanceStore.tla (Create/Iterate/Patch/Store/Load histories over 24 package shapes); one real execution per abstract transition along a shortest history with the full projection compared at every Load",
+             text="The spec is the oracle for what must survive a store/load cycle (layered variables, platform, replica count, loop iterations, patches); the driver executes every transition TLC finds on real instance directories and additionally compares the complete real projection (nodes, dataflow, resolved and raw configuration, environments, placeholders, DoWhile state) before store and after reload, and the stored YAML before and after load+store.",
+             note="Trusted: TLC. Platform passed explicitly on reload (as elaunch does); stored description compared as parsed YAML; loop iterations <= 2; transition coverage, not all paths.",
+             ref="4/C07"),
+ "C19": dict(engine="Dosini", technique="TLC model checking of spec/Dosini.tla (Dump;Load;Redump;Reload over abstract instances and an abstract sectioned file system, keyword tables as explicit constants, named translation faults as witnesses); every TLC-emitted instance written and read twice by the real Dosini frontend and compared with the spec",
+             text="TLC enumerates every (option, value class) atom x 5 backends x component/stage/global blueprint x both instance flavours, all option pairs within a section (thorough: across sections), all variable scope subsets, environment shapes, status and output forms; the driver executes all ~4k (thorough ~17k) cases on the real dump/load and on DOSINIExperimentConfiguration with the spec's expected view as oracle.",
+             note="Trusted: TLC, the hand-written option catalogue (guarded against drift from FlowIR.default_component_structure and Dosini.known_flowir_options: drift = exit 2). Outside the quantifier: options without a legacy keyword, empty lists, typed variable values, reserved section names.",
+             ref="4/C19"),
  "C20": dict(engine="Progress", technique="TLC model checking of spec/Progress.tla (weight normalisation + progress state machine); every TLC-emitted case/state replayed into FlowIRConcrete and the real StatusMonitor.CheckStatus and compared with the spec",
              text="TLC exhaustively checks the normalisation rule and the progress state machine for <=3 (thorough 4) stages over a truncation-sensitive weight grid; the binding executes every emitted weight vector through the real loader and every reachable progress state through the real StatusMonitor with the spec as oracle.",
              note="Trusted: TLC, the stub controller that imposes the model state on StatusMonitor (Controller.get_stage_status itself is real); weights with more than 4 decimals are outside the grid.",
